@@ -8,3 +8,13 @@ package ecdh
 //@   ensures nilOnFail: !ret1 ==> ret0 == nil
 //@   ensures typ: ret1 ==> typeIs[*[32]byte](ret0) && fresh(ret0)
 //@   ensures content: ret1 ==> (forall i int :: 0 <= i && i < 32 ==> (*(ret0.(*[32]byte)))[i] == data[i])
+
+// X25519 itself is outside the verified code (assumed: 32-byte result in fresh memory, inputs untouched).
+//@ func golang.org/x/crypto/curve25519.X25519
+//@   flag trusted
+//@   ensures shape: ret1 == nil ==> len(ret0) == 32 && fresh(ret0)
+
+// GenerateSharedSecret panics unless both keys are *[32]byte: a precondition its callers must establish.
+//@ func GenerateSharedSecret
+//@   requires keyTypes: typeIs[*[32]byte](privKey) && privKey.(*[32]byte) != nil && typeIs[*[32]byte](pubKey) && pubKey.(*[32]byte) != nil
+//@   ensures shape: ret1 == nil ==> len(ret0) == 32 && fresh(ret0)
